@@ -217,7 +217,7 @@ REG.update({
                  "(three times out of four aimed at a stored lockup, sometimes through a contract that does not own it, sometimes for the epoch still accumulating or before the tranche unlocks). Most runs start from prologue 3 (contract deployed, contract-held lockups of two epochs). "
                  "Oracles after every accepted block: (credit-ledger) a model of contract-held lockups keyed (contract, miner, lockup byte, epoch), fed only by the coinbase ETXs executed in accepted blocks, equals the stored cl records exactly; "
                  "Qi rewards are minted under the reward ETX's hash, locked until exactly block+depth, for no more than the lockup-adjusted value; the plain-reward account's balance changes at a block by exactly the rewards whose unlock height it is (less the account-creation fee the first time); "
-                 "(claim-once) a claim pays only an existing lockup, of a closed epoch, at or after its tranche unlock height, exactly its accumulated balance, to the stated recipient from the owning contract, and removes it; (share-once) no uncle/workshare is included twice on a chain or is itself canonical." + ' The lockup-owner contract reverts when the precompile refuses (premature, repeated, foreign claims become failed transactions next to successful ones in one block).'),
+                 "(claim-once) a claim pays only an existing lockup, of a closed epoch, at or after its tranche unlock height, exactly its accumulated balance, to the stated recipient from the owning contract, and removes it; (share-once) no uncle/workshare is included twice on a chain or is itself canonical." + ' The lockup-owner contract reverts when the precompile refuses (premature, repeated, foreign claims become failed transactions next to successful ones in one block).' + " Fault kind added after seeding wave 7 (C13-f): the harness miner chooses its own header data through a build-time seam in the worker - the lockup byte followed by 1..19 stray bytes, a layout that is neither a plain nor a contract reward and that the protocol declares lost; the credit-ledger oracle then demands that such a reward is credited neither at issuance nor at any unlock height."),
         "expect_probes": ["contract_lockup_reward", "lockup_accumulated", "claim_paid", "claim_refused", "quai_reward_unlocked", "qi_reward_checked", "uncle_included", "reorg"],
         "components": S5_COMPONENTS,
         "assumptions": ["the reward amount of a coinbase ETX is taken from the honest block (worker/validator agreement is C07); only the lockup adjustment uses params.CalculateCoinbaseValueWithLockup",
